@@ -254,14 +254,73 @@ func c15r3(c *core.Ctx) {
 		})
 		return def, cmpL, op
 	}
-	sd, sc, sop := target(shrink)
-	cd, cc, cop := target(can)
+	sd, _, _ := target(shrink)
+	cd, _, _ := target(can)
 	subject := shrink.Name + " / " + can.Name
-	opposite := (sop == token.LEQ && cop == token.GTR) || (sop == token.GTR && cop == token.LEQ) || (sop == token.LSS && cop == token.GEQ) || (sop == token.GEQ && cop == token.LSS)
-	if sd == cd && sc == cc && sd != "" && opposite {
-		c.OK("C15/R3", subject, c.At(shrink.Pos()), "same target expression ("+sd+"), capacity compared with opposite polarity")
+	// the shrink role acts (reaches a call that changes the capacity) under exactly the condition under which the
+	// can-shrink role answers true; both written in any form (early return, positive if, returned comparison)
+	changesCap := func(st ast.Stmt) bool {
+		found := false
+		ast.Inspect(st, func(x ast.Node) bool {
+			if _, isIf := x.(*ast.IfStmt); isIf && x != ast.Node(st) {
+				return false
+			}
+			if call, ok := x.(*ast.CallExpr); ok {
+				for _, e := range c.Eff.StoresAt(shrink, call) {
+					if e.Path.Has("table.cap") {
+						found = true
+					}
+				}
+			}
+			return true
+		})
+		_, isIf := st.(*ast.IfStmt)
+		return found && !isIf
+	}
+	norm := func(cs [][]string) map[string]bool {
+		out := map[string]bool{}
+		for _, cj := range cs {
+			out[normConj(cj)] = true
+		}
+		return out
+	}
+	act := norm(pathConds(m, shrink, shrink.Body.List, changesCap))
+	var yes map[string]bool
+	if len(can.Body.List) > 0 {
+		if rs, ok := can.Body.List[len(can.Body.List)-1].(*ast.ReturnStmt); ok && len(rs.Results) == 1 {
+			if tv, isC := m.Info.Types[rs.Results[0]]; !isC || tv.Value == nil {
+				// a returned condition, possibly after early returns
+				pre := pathConds(m, can, can.Body.List, func(st ast.Stmt) bool { return st == ast.Stmt(rs) })
+				var all [][]string
+				for _, p := range pre {
+					for _, d := range condDNF(m, can, rs.Results[0], false, 0) {
+						all = append(all, append(append([]string{}, p...), d...))
+					}
+				}
+				yes = norm(all)
+			}
+		}
+	}
+	if yes == nil {
+		yes = norm(pathConds(m, can, can.Body.List, func(st ast.Stmt) bool {
+			rs, ok := st.(*ast.ReturnStmt)
+			if !ok || len(rs.Results) != 1 {
+				return false
+			}
+			tv, isC := m.Info.Types[rs.Results[0]]
+			return isC && tv.Value != nil && tv.Value.String() == "true"
+		}))
+	}
+	same := len(act) == len(yes) && len(act) > 0
+	for k := range act {
+		if !yes[k] {
+			same = false
+		}
+	}
+	if sd == cd && sd != "" && same {
+		c.OK("C15/R3", subject, c.At(shrink.Pos()), fmt.Sprintf("same target expression (%s); the capacity is changed under %v, which is when the scan answers true", sd, keysOf(act)))
 	} else {
-		c.Violation("C15/R3", subject, c.At(shrink.Pos()), fmt.Sprintf("the shrink role (%s; cap %s %s) and the can-shrink role (%s; cap %s %s) do not agree; the remaining-work scan would not match what shrinking does", sd, sop, sc, cd, cop, cc))
+		c.Violation("C15/R3", subject, c.At(shrink.Pos()), fmt.Sprintf("the shrink role (%s; changes the capacity under %v) and the can-shrink role (%s; answers true under %v) do not agree; the remaining-work scan would not match what shrinking does", sd, keysOf(act), cd, keysOf(yes)))
 	}
 }
 
